@@ -66,8 +66,11 @@ func (s *scan) matchEdges(ch int64) (edges [][2]interface{}, idx []types.Object)
 		if !b.Live || cond == nil {
 			continue
 		}
-		for si, val := range []bool{true, false} {
-			for _, f := range cfgq.Facts(cond, val) {
+		for si := range []bool{true, false} {
+			if si >= len(b.Succs) {
+				continue
+			}
+			for _, f := range edgeFacts(s.g, b, si) { // conditions carried in boolean locals included
 				if o, eq, ok := s.braceTest(f.Expr, ch); ok && eq == f.Val {
 					edges = append(edges, [2]interface{}{b, si})
 					idx = append(idx, o)
@@ -84,7 +87,7 @@ func (s *scan) isTest(ch int64) func(ast.Node) bool {
 		if !ok {
 			return false
 		}
-		for _, f := range append(cfgq.Facts(e, true), cfgq.Facts(e, false)...) {
+		for _, f := range expandLocals(s.g, append(cfgq.Facts(e, true), cfgq.Facts(e, false)...), e, 0) {
 			if _, _, ok := s.braceTest(f.Expr, ch); ok {
 				return true
 			}
@@ -268,6 +271,12 @@ func scanLoops(c *core.Ctx, fn *core.Fn, name string, keyObj types.Object) bool 
 		}
 		lo, lok := offsetFrom(info, se.Low, openIdx[0])
 		hi, hok := offsetFrom(info, se.High, closeIdx[0])
+		if !lok { // the position carried out of the scan in a variable
+			lo, lok = s.carried(se, se.Low, openIdx[0], openE[0])
+		}
+		if !hok {
+			hi, hok = s.carried(se, se.High, closeIdx[0], closeE[0])
+		}
 		if !lok || !hok {
 			c.Undecidedf("R3.tag", key, se.Pos(), "tag slice %s is not expressed through the positions of the matched braces", c.Src(se))
 			continue
@@ -451,6 +460,119 @@ func offsetFrom(info *types.Info, e ast.Expr, base types.Object) (int64, bool) {
 		return k, true
 	}
 	return 0, false
+}
+
+// carried: e is C or C+k for a local C that carries a brace position out of the
+// scan: its only non-zero assignment is `C = base+j`, made where the brace test
+// (edge) has just succeeded, and the use is reached only after that assignment
+// with no reset in between. Returns j+k.
+func (s *scan) carried(use ast.Node, e ast.Expr, base types.Object, edge [2]interface{}) (int64, bool) {
+	info := s.info
+	e = strip(info, e)
+	k := int64(0)
+	co := objOf(info, e)
+	if be, ok := e.(*ast.BinaryExpr); ok && (be.Op == token.ADD || be.Op == token.SUB) {
+		if v, isC := core.IntConst(info, be.Y); isC {
+			co, k = objOf(info, strip(info, be.X)), v
+			if be.Op == token.SUB {
+				k = -k
+			}
+		} else if v, isC := core.IntConst(info, be.X); isC && be.Op == token.ADD {
+			co, k = objOf(info, strip(info, be.Y)), v
+		}
+	}
+	if co == nil || co == base {
+		return 0, false
+	}
+	isZero := func(r ast.Expr) bool {
+		if r == nil {
+			return true
+		}
+		if v, isC := core.IntConst(info, r); isC {
+			return v == 0
+		}
+		if st, ok := ast.Unparen(r).(*ast.StarExpr); ok { // *new(int)
+			if call, ok := ast.Unparen(st.X).(*ast.CallExpr); ok && len(call.Args) == 1 {
+				if b, isB := core.Callee(info, call).(*types.Builtin); isB && b.Name() == "new" {
+					return true
+				}
+			}
+		}
+		return false
+	}
+	var real ast.Expr
+	var realStmt ast.Node
+	var zeros []ast.Node
+	bad := false
+	ast.Inspect(s.fn.Decl.Body, func(n ast.Node) bool {
+		switch x := n.(type) {
+		case *ast.AssignStmt:
+			for i, l := range x.Lhs {
+				if objOf(info, l) != co {
+					continue
+				}
+				r := core.AssignedTo(x, i)
+				switch {
+				case r == nil || x.Tok != token.ASSIGN && x.Tok != token.DEFINE:
+					bad = true
+				case isZero(r):
+					zeros = append(zeros, x)
+				case real != nil:
+					bad = true
+				default:
+					real, realStmt = r, x
+				}
+			}
+		case *ast.IncDecStmt:
+			if objOf(info, x.X) == co {
+				bad = true
+			}
+		case *ast.ValueSpec:
+			for i, nm := range x.Names {
+				if info.Defs[nm] == co && i < len(x.Values) && !isZero(x.Values[i]) {
+					bad = true
+				}
+			}
+		case *ast.UnaryExpr:
+			if x.Op == token.AND && objOf(info, x.X) == co {
+				bad = true
+			}
+		}
+		return true
+	})
+	if bad || real == nil {
+		return 0, false
+	}
+	j, ok := offsetFrom(info, real, base)
+	if !ok {
+		return 0, false
+	}
+	dp, ok1 := s.g.Find(realStmt)
+	up, ok2 := s.g.Find(use)
+	if !ok1 || !ok2 {
+		return 0, false
+	}
+	// recorded only where the brace was found
+	eb, es := edge[0].(*cfg.Block), edge[1].(int)
+	if w := s.g.Path(cfgq.Query{From: s.g.Entry(), Target: func(n ast.Node) bool { return n == dp.Node() }, AvoidEdge: func(b *cfg.Block, si int) bool { return b == eb && si == es }}); w != nil {
+		return 0, false
+	}
+	// used only with the recorded value
+	isReal := func(n ast.Node) bool { return n == dp.Node() }
+	isUse := func(n ast.Node) bool { return n == up.Node() }
+	if w := s.g.Path(cfgq.Query{From: s.g.Entry(), Avoid: isReal, Target: isUse}); w != nil {
+		return 0, false
+	}
+	for _, z := range zeros {
+		zp, ok := s.g.Find(z)
+		if !ok {
+			return 0, false
+		}
+		if w := s.g.Path(cfgq.Query{From: zp, After: true, Avoid: isReal, Target: isUse}); w != nil {
+			return 0, false
+		}
+	}
+	return j + k, true
 }
 
 // nonEmpty recognises the facts that make the hashed tag expression non-empty.
